@@ -66,6 +66,10 @@ def cases(rng, quick, gr):
     # (5) row-major indexing with computed indices
     for k in range(6):
         yield {"tag": "index", "text": HDR + DECLS + "Op(A[%d], A[%d+0], A[n-3+%d], F[%d]) | A[%d]\n" % (k, k, k, k % 4, k)}
+    # (5b) a variable / array declared again after it has been used: later uses see the NEW value
+    for k in range(6):
+        yield {"tag": "redeclared", "text": HDR + "int array A =\n    1, 2, 3\nfloat y = A[%d] * 2\nint array A =\n    10, 20, 30, 40, 50\nOp(A[%d], y, A[4] - A[%d]) | A[0] - 10\n" % (k % 3, k % 5, k % 3)}
+        yield {"tag": "redeclared", "text": HDR + "float v = %d.5\nfloat w = v + 1\nfloat v = %d\nOp(v, w, v * w) | 0\nint array M =\n    7, 8\nOp(M[1]) | 1\nfloat array M =\n    0.5, 1.5, 2.5\nOp(M[2], M[0] + v) | 1\n" % (k, k + 3)}
     # (6) random deep expressions
     n = 1500 if quick else 120000
     for i in range(n):
